@@ -37,6 +37,8 @@ def declare(rep):
     rep.rule("C02.slot-loop-bound", "no routine of class cell visits the node/face slots [0, live count): used elements behind a free slot would get no force", floor=3)
     rep.rule("C02.bending-stiffness", "bending: the forces on the four nodes of a hinge carry one common stiffness factor (their sum cannot vanish otherwise)", floor=1)
     rep.rule("C02.bending-receivers", "bending: the four hinge nodes (edge nodes, opposite nodes of f1 and f2) receive the gradients of their own slots", floor=4)
+    rep.rule("C02.force-coverage", "tension/elasticity and pressure forces are applied to every used face: a condition under which a face is skipped must make that face's force vanish identically (e.g. a degenerate face), otherwise the formula does not hold for the skipped parameter values (zero tension with non-zero elasticity, ...)", floor=2)
+    rep.rule("C02.angle-range", "vec3::get_angle_with returns the angle in [0, pi]: acos of the normalised dot product (or atan2(|a x b|, a.b)); an inverse function whose range ends at pi/2 (asin, one-argument atan) folds obtuse angles onto acute ones and breaks the cotangent identities the bending and angle-regularisation forces rest on", floor=2)
     rep.rule("C02.translation", "every internal force is invariant under a common translation of the node positions", floor=10)
 
 
@@ -64,6 +66,7 @@ def run(rep, prog, tier):
         return
     lints.check_slot_loops(rep, prog, "C02.slot-loop-bound", lambda cls, fn: cls == "cell")
     pressure(rep, prog)
+    angle_range(rep, prog)
     angles(rep, prog)
     bending(rep, prog)
     translation(rep, prog)
@@ -161,6 +164,81 @@ def reduce_L(expr, L, nn):
     return sp.expand(out)
 
 
+def force_coverage(rep, prog, fn, ev, calls, forces, what):
+    """every condition that dominates the force block: is_used(), a test of the face's own area against zero (degenerate face: the
+    gradient vanishes), or an (in)equality `X != c` whose negation X = c makes every force component identically zero"""
+    from ..model import facts_at
+    fi = prog.index(fn)
+    n_extra = 0
+    for atom, truth in facts_at(fn, fi, calls[0]):
+        txt = render(atom).replace(" ", "")
+        if atom.get("k") == "CXXMemberCallExpr" and atom.get("callee", "").endswith("::is_used"):
+            if truth:
+                continue
+        if re.search(r"get_area\(\)|\.area_|->area_", txt) and atom.get("k") == "BinaryOperator" and strip(atom["c"][1]).get("k") in ("FloatingLiteral", "IntegerLiteral") and float(strip(atom["c"][1]).get("v", "1")) == 0.0:
+            continue        # zero-area face: its area gradient is the zero vector
+        if atom.get("k") == "CXXMemberCallExpr" and "isfinite" in txt:
+            continue
+        n_extra += 1
+        neutral = None
+        if atom.get("k") == "BinaryOperator" and atom.get("op") in ("==", "!=") and ((atom["op"] == "!=") == truth):
+            # the block runs only when X != c: the skipped case is X == c
+            for a_, b_ in ((atom["c"][0], atom["c"][1]), (atom["c"][1], atom["c"][0])):
+                lit = strip(b_)
+                if lit.get("k") in ("FloatingLiteral", "IntegerLiteral"):
+                    try:
+                        x_ = sp.sympify(ev.ev(a_))
+                    except S.Decline:
+                        x_ = None
+                    if x_ is not None and x_.is_Symbol:
+                        val = sp.nsimplify(float(lit["v"]))
+                        neutral = all(ev.prove_zero(sp.sympify(c_).subs(x_, val)) for f_ in forces for c_ in f_)
+        if neutral:
+            rep.ok("C02.force-coverage", prog, fn, atom, "%s: faces skipped by '%s' have an identically zero force" % (what, short(atom, 50)))
+        elif neutral is False:
+            rep.violation("C02.force-coverage", prog, fn, atom, "%s skipped for faces where it does not vanish" % what,
+                          "%s applies the %s forces only when %s%s: for the faces it skips the force (%s) is not zero, so the force is no longer minus the derivative of the energy for those parameter values" % (fn["qn"], what, "" if truth else "not ", short(atom, 60), "the remaining terms of the force factor"))
+        else:
+            raise AnalysisBroken("%s: the %s forces are applied under the condition '%s%s' whose effect on the formula is not decided" % (prog.loc(fn, atom), what, "" if truth else "not ", short(atom, 60)))
+    if n_extra == 0:
+        rep.ok("C02.force-coverage", prog, fn, calls[0], "%s: the force block runs for every used (non-degenerate) face" % what)
+
+
+def angle_range(rep, prog):
+    fns = [f for f in prog.fns("vec3::get_angle_with") if isinstance(f.get("body"), dict)]
+    if not fns:
+        raise AnalysisBroken("vec3::get_angle_with not found")
+    for fn in fns:
+        inv = [x for x in walk(fn["body"]) if x.get("k") == "CallExpr" and x.get("callee") in ("std::acos", "std::asin", "std::atan", "std::atan2", "acos", "asin", "atan", "atan2")]
+        if len(inv) != 1:
+            raise AnalysisBroken("%s: %d inverse trigonometric calls; the range of the returned angle is not decided" % (fn["key"], len(inv)))
+        c = inv[0]
+        name = c["callee"].split("::")[-1]
+        if name in ("asin", "atan"):
+            rep.violation("C02.angle-range", prog, fn, c, "angle computed with %s (range ends at pi/2)" % name,
+                          "%s computes the angle between two vectors as %s: the range of %s is [-pi/2, pi/2], so an obtuse angle theta is returned as pi - theta (or its negative); the hinge / corner angles of stretched or flattened triangles are wrong and the bending and regularisation forces no longer sum to zero" % (fn["key"], short(c, 70), name))
+            continue
+        try:
+            ev = S.SymEval(prog, fn, lazy_scalars=False)
+            a = [ev.sym("this.%s" % k_) for k_ in ("dx_", "dy_", "dz_")]
+            pn = fn["params"][0]["name"]
+            b = [ev.sym("%s.%s" % (pn, k_)) for k_ in ("dx_", "dy_", "dz_")]
+            dot_ = sum(x * y for x, y in zip(a, b))
+            na, nb = sp.sqrt(sum(x * x for x in a)), sp.sqrt(sum(x * x for x in b))
+            args = [sp.sympify(ev.ev(x)) for x in call_args(c)]
+            if name == "acos":
+                good = ev.prove_zero(args[0] * na * nb - dot_)
+            else:
+                cr = cross(a, b)
+                good = ev.prove_zero(args[1] - dot_) and ev.prove_zero(args[0] ** 2 - sum(x * x for x in cr))
+        except S.Decline as e:
+            raise AnalysisBroken("%s: %s" % (prog.loc(fn, c), e))
+        if good:
+            rep.ok("C02.angle-range", prog, fn, c, "%s: %s of the normalised dot product: range [0, pi]" % (fn["key"], name))
+        else:
+            rep.violation("C02.angle-range", prog, fn, c, "angle is not %s of the normalised dot product" % name, "%s: %s is not the angle between the two vectors (%s)" % (fn["key"], short(c, 70), getattr(ev, "last_witness", "")))
+
+
 def tension(rep, prog):
     fn = prog.fn("cell::apply_surface_tension_and_membrane_elasticity")
     blocks = force_blocks(fn)
@@ -177,6 +255,7 @@ def tension(rep, prog):
             poss.append(vec(ev, ev.field(o, "pos_", "vec3")))
         tot = [sum(f[i] for f in forces) for i in range(3)]
         ok_sum = len(set(recv)) == 3 and all(ev.prove_zero(t) for t in tot)
+        force_coverage(rep, prog, fn, ev, calls, forces, "tension / elasticity")
         fpath = face_path(recv[0])
         nodes = order_nodes(recv, fpath)
         x = [[ev.sym("%s.pos_.%s" % (r, c)) for c in ("dx_", "dy_", "dz_")] for r in nodes]
@@ -287,6 +366,7 @@ def pressure(rep, prog):
         fpath = face_path(recv[0])
         order_nodes(recv, fpath)
         p = ev.sym("this.pressure_")
+        force_coverage(rep, prog, fn, ev, calls, [vec(ev, ev.ev(call_args(c_)[0])) for c_ in calls], "pressure")
         for c in calls:
             f_ = vec(ev, ev.ev(call_args(c)[0]))
             exp = [ev.sym("%s.normal_.%s" % (fpath, k)) * p * ev.sym("%s.area_" % fpath) / 3 for k in ("dx_", "dy_", "dz_")]
